@@ -111,12 +111,68 @@ type fakes struct {
 	scripts map[[2]int]*repScript // (server, vid)
 	log     []event
 	ports   []int // data node (HTTP) ports: grpc port - 10000
+
+	// mid-round topology events: performed exactly once, synchronously, by the
+	// handler of (server, vid, phase) before it answers. A true result means the
+	// server itself went down: it fails this and every later RPC of the case.
+	events map[evKey]func() bool
+	evMu   sync.Mutex
+	dead   map[int]bool
+}
+
+type evKey struct {
+	server int
+	vid    uint32
+	phase  string
+}
+
+func (f *fakes) setEvent(server int, vid uint32, phase string, fn func() bool) {
+	f.mu.Lock()
+	f.events[evKey{server, vid, phase}] = fn
+	f.mu.Unlock()
+}
+
+func (f *fakes) clearEvents() {
+	f.mu.Lock()
+	f.events = map[evKey]func() bool{}
+	f.mu.Unlock()
+}
+
+// fire runs the pending event of this RPC, if any (once).
+func (f *fakes) fire(server int, vid uint32, phase string) {
+	f.mu.Lock()
+	k := evKey{server, vid, phase}
+	fn := f.events[k]
+	delete(f.events, k)
+	f.mu.Unlock()
+	if fn == nil {
+		return
+	}
+	f.evMu.Lock()
+	down := fn()
+	f.evMu.Unlock()
+	if down {
+		f.mu.Lock()
+		f.dead[server] = true
+		f.mu.Unlock()
+	}
+}
+
+// reportReadOnly: from now on this replica answers a successful commit with IsReadOnly=true.
+func (f *fakes) reportReadOnly(server int, vid uint32) {
+	f.mu.Lock()
+	if s := f.scripts[[2]int{server, int(vid)}]; s != nil && s.commit == cmOK {
+		s.commit = cmOKRO
+	}
+	f.mu.Unlock()
 }
 
 func (f *fakes) reset() {
 	f.mu.Lock()
 	f.scripts = map[[2]int]*repScript{}
 	f.log = nil
+	f.events = map[evKey]func() bool{}
+	f.dead = map[int]bool{}
 	f.mu.Unlock()
 }
 
@@ -137,11 +193,15 @@ func (f *fakes) takeLog() []event {
 
 // begin records the arrival of an RPC and returns its script (nil: this server holds no such volume).
 func (f *fakes) answer(server int, vid uint32, phase string, decide func(s *repScript) (ok, ro bool)) (bool, bool, *repScript) {
+	f.fire(server, vid, phase)
 	f.mu.Lock()
 	s := f.scripts[[2]int{server, int(vid)}]
 	var ok, ro bool
 	note := ""
-	if s == nil {
+	if f.dead[server] {
+		note = " [server is down]"
+		s = downScript
+	} else if s == nil {
 		note = " [no such volume on this server]"
 	} else {
 		ok, ro = decide(s)
@@ -164,6 +224,9 @@ func (f *fakes) realFailed(server int, vid uint32, phase string, err error) {
 	}
 	f.mu.Unlock()
 }
+
+// downScript makes every handler answer with a transport error.
+var downScript = &repScript{check: ckErrT, compact: cpErrT, commit: cmErrT, cleanup: clErr}
 
 type fakeVS struct {
 	volume_server_pb.UnimplementedVolumeServerServer
@@ -252,7 +315,7 @@ var (
 // all cases (the gRPC client side caches one connection per address).
 func servers(t interface{ Fatalf(string, ...any) }) *fakes {
 	fkOnce.Do(func() {
-		f := &fakes{scripts: map[[2]int]*repScript{}}
+		f := &fakes{scripts: map[[2]int]*repScript{}, events: map[evKey]func() bool{}, dead: map[int]bool{}}
 		for i := 0; i < nServers; i++ {
 			var lis net.Listener
 			var err error
